@@ -696,11 +696,11 @@ Do(t, ins, me) ==
     [] ins.op = "tryrecv"  -> TryRecv(t, ins, me)
     [] ins.op = "droprx"   -> DropRx(t, ins, me)
     [] ins.op = "aclone"   -> AClone(t, ins, me)
-    [] ins.op = "adrop"    -> ADrop(t, ins, me)
+    [] ins.op \in {"adrop", "adropheld"} -> ADrop(t, ins, me)
     [] ins.op = "acount"   -> ACount(t, ins, me)
     [] ins.op = "agetmut"  -> AGetMut(t, ins, me)
     [] ins.op = "aunwrap"  -> AUnwrap(t, ins, me)
-    [] ins.op = "aintoraw" -> ANop(t, ins, me)
+    [] ins.op \in {"aintoraw", "ahold"} -> ANop(t, ins, me)
     [] ins.op = "afromraw" -> ANop(t, ins, me)
     [] ins.op = "aptreq"   -> APtrEq(t, ins, me)
     [] ins.op = "tnew"     -> TNew(t, ins, me)
